@@ -201,7 +201,8 @@ def run(tier):
             "tlc_case_jobs": res_c.distinct // 2,
             "tlc_witness_jobs": res_w.distinct // 2,
             "states": res_m.distinct + res_c.distinct + res_w.distinct,
-            "tlc_wall_s": round(tlc_wall, 1),
+            "tlc_wall_s": {"witness": round(res_w.wall, 1), "cases": round(res_c.wall, 1), "minors": round(res_m.wall, 1),
+                           "elapsed_until_all_done": round(tlc_wall, 1)},
             "harness_wall_s": round(hr.wall, 1),
             "harness_failures": hr.stat("failures"),
             "harness_shards_stopped_by_crash": hr.crashed,
